@@ -25,6 +25,7 @@ core.setup_paths()
 from vlib.gen import docs  # noqa: E402
 
 TOK = re.compile(rb"q[a-z][0-9]{5}z")
+ORDER_FREE = {"xlsx", "xls", "doc", "ppt", "pdf"}    # shared-string tables, piece tables, record stores, object streams: byte order is not reading order
 
 
 def spellings(data: bytes) -> list[bytes]:
@@ -51,7 +52,7 @@ def spellings(data: bytes) -> list[bytes]:
                 more.append(zlib.decompressobj().decompress(blob[m.end():m.end() + 1 << 20]))
             except Exception:
                 pass
-    return out + more
+    return out + more, len(out)
 
 
 def main():
@@ -76,13 +77,27 @@ def main():
                     for s in (exp.outs, exp.ignored, exp.tables_only):
                         for t in s:
                             recorded[t] += 0
-                    blobs = spellings(data)
+                    blobs, n_primary = spellings(data)
                     written = collections.Counter()
                     for b in blobs[: max(1, len(blobs) // 2) if False else len(blobs)]:
                         for t in TOK.findall(b):
                             written[t.decode()] += 1
                     missing = [t for t in recorded if t not in written and t not in exp.ignored]
                     extra = [t for t in written if t not in recorded]
+                    # recording order == writing order: inside every written part, the body tokens found there appear in the
+                    # order they were recorded (a renderer that draws blocks out of document order makes the oracle say "reordered")
+                    disorder = None
+                    for b in blobs[:n_primary]:
+                        pos = {}
+                        for m in TOK.finditer(b):
+                            pos.setdefault(m.group(0).decode(), m.start())
+                        seq = [t for t in exp.seq if t in pos]
+                        for a, c in zip(seq, seq[1:]):
+                            if pos[c] < pos[a] and disorder is None:
+                                disorder = (a, c)
+                    if disorder and fmt not in ORDER_FREE:
+                        bad += 1
+                        print(f"OUT-OF-ORDER {fmt} feature={feat} twin={twin} seed={seed}: {disorder[1]} is written before {disorder[0]} but recorded after it")
                     if missing or extra:
                         bad += 1
                         print(f"INCONSISTENT {fmt} feature={feat} twin={twin} seed={seed}: recorded-but-not-written={missing[:5]} written-but-not-recorded={extra[:5]}")
